@@ -101,6 +101,7 @@ fn run(prog: &Program, opt: &HashMap<String, Vec<String>>) {
 	let sol = if mode == Mode::Concrete { None } else { Some(solver::Solver::new(&solver_cmd, timeout_ms)) };
 	let mut it = Interp::new(prog, mode, sol);
 	it.seed = seed;
+	it.f32_mode = prog.features.contains("value_type_f32");
 	it.rng ^= seed.wrapping_mul(0x2545F4914F6CDD1D);
 	if opt.contains_key("no-merge") {
 		it.merge_enabled = false;
